@@ -357,18 +357,25 @@ def run(rep):
                 continue
             n, c = found[pre]
             sid = strip_ref(subpat(c["pat"], 0)).get("id") if variant_of(c["pat"]) == ("Option", "Some") else None
-            inner = peel(n["then"])
-            while inner.get("k") == "Block" and not inner["stmts"] and inner.get("expr"):
-                inner = peel(inner["expr"])
-            ok = inner.get("k") == "If" and call_is(peel(inner["cond"]), "::contains") and lit(peel(inner["cond"])["args"][1]) == ("c", ".") and q.var_id(peel(inner["cond"])["args"][0]) == sid
+            dots = [(x, pth) for x, pth in walk_with_path(n["then"]) if x.get("k") == "If" and x.get("else") is not None and call_is(peel(x["cond"]), "::contains") and lit(peel(x["cond"])["args"][1]) == ("c", ".")
+                    and q.base_var(peel(x["cond"])["args"][0], n["then"]) == sid]
+            inner = dots[0][0] if len(dots) == 1 else peel(n["then"])
+            under_try = len(dots) == 1 and any(p_.get("k") == "Try" for p_ in dots[0][1])
+            ok = len(dots) == 1
             rep.check(ok, "T-NUM", "T-NUM/dot/" + pre, n["sp"], "float iff the remainder contains '.'", show(inner.get("cond")) if inner.get("k") == "If" else show(inner)[:60])
             if inner.get("k") != "If":
                 continue
             for branch, variant, ty in ((inner["then"], fv, "f64"), (inner["else"], iv, "i64")):
-                adts = [x for x in walk(branch) if x.get("k") == "Adt" and x["adt"].endswith("Pattern")]
+                adts = [x["variant"] for x in walk(branch) if x.get("k") == "Adt" and x["adt"].endswith("Pattern")]
+                # or the constructor handed to `.map(..)` as a function value (directly or through a let)
+                for x in walk(branch):
+                    if call_is(x, "::map") and len(x["args"]) == 2:
+                        cv = q.resolve(n["then"], x["args"][1])
+                        if cv.get("k") == "Zst" and "Pattern::" in str(cv.get("fn")):
+                            adts.append(str(cv["fn"]).split("::")[-1])
                 parses = q.calls(branch, "::parse")
                 trys = [x for x in walk(branch) if x.get("k") == "Try"]
-                ok = len(adts) == 1 and adts[0]["variant"] == variant and len(parses) == 1 and ty in parses[0].get("gen", []) and q.var_id(parses[0]["args"][0]) == sid and len(trys) == 1 and not q.calls(branch, "::unwrap") and not q.calls(branch, "::expect")
+                ok = len(adts) == 1 and adts[0] == variant and len(parses) == 1 and ty in parses[0].get("gen", []) and q.base_var(parses[0]["args"][0], n["then"]) == sid and (len(trys) == 1 or (under_try and not trys)) and not q.calls(branch, "::unwrap") and not q.calls(branch, "::expect")
                 rep.check(ok, "T-NUM", "T-NUM/%s/%s" % (pre, variant), branch["sp"], "prefix %r => Pattern::%s(parse::<%s>(rest)?)" % (pre, variant, ty), show(branch)[:120])
         # order: >= before >, <= before <
         order = [l for l in _prefix_order(idf.body)]
